@@ -1042,6 +1042,93 @@ Fixpoint disp_run (next : dcfg -> result route -> dcfg) (cfg : dcfg) (frames : l
   end.
 
 (* ------------------------------------------------------------------ *)
+(* internal/l2tp/dispatch.go Dispatch + dispatchSCCRQ, internal/l2tp/lns.go HandleSCCRQ (AVP extraction part),
+   pkg/l2tp/avp_catalog.go FindFirst / DecodeUint16 / DecodeMessageType: one L2TP datagram from the wire to its handler.
+   DecodeUint16 is `binary.BigEndian.Uint16(a.Value[:2])` and panics on a value shorter than 2 bytes ("caller must have
+   validated"): the model keeps it a checked slice, so the totality theorem establishes that every caller does validate. *)
+Definition find_first (vid ty : N) (l : list avp) : option avp :=
+  find (fun a => (a_vendor a =? vid) && (a_type a =? ty)) l.
+Definition decode_u16 (a : avp) : result N := s <- sl 0 2 (a_value a);; u16at 0 s.
+Definition decode_msg_type (l : list avp) : result N :=
+  match l with
+  | [] => Ok 0
+  | a :: _ => if negb (a_vendor a =? 0) || negb (a_type a =? 0) || (lenN (a_value a) <? 2) then Ok 0 else decode_u16 a
+  end.
+(* HandleSCCRQ up to the point where the tunnel is instantiated (no secret configured, challenge not required):
+   Some peer-tunnel-id when a tunnel is created *)
+Definition sccrq_extract (l : list avp) : result (option N) :=
+  mt <- decode_msg_type l;;
+  if negb (mt =? 1) then Ok None else
+  match find_first 0 7 l with
+  | None => Ok None
+  | Some _ =>
+    match find_first 0 9 l with
+    | None => Ok None
+    | Some a =>
+      if lenN (a_value a) <? 2 then Ok None else
+      tid <- decode_u16 a;;
+      match find_first 0 11 l with Some _ => Ok None | None => Ok (Some tid) end
+    end
+  end.
+(* applyPeerReceiveWindow *)
+Definition peer_rws (l : list avp) : result N :=
+  match find_first 0 10 l with
+  | Some a => if 2 <=? lenN (a_value a) then decode_u16 a else Ok 4
+  | None => Ok 4
+  end.
+(* what one datagram does on a component that knows one session (tunnel 7, session 9, reached from the data path) and
+   authorises the LAC host name [auth]:
+   data frame to that session -> the PPP route; SCCRQ -> host name handed to the resolver, and the peer's tunnel id when a
+   tunnel is created; everything else is rejected or has no visible effect *)
+Inductive l2obs :=
+| LNothing
+| LData (r : route)
+| LSccrq (host : bytes) (created : option N).
+Definition l2tp_dispatch (auth : bytes) (b : bytes) : result l2obs :=
+  v3 <- is_l2tpv3 b;;
+  if v3 then Ok LNothing else
+  match l2tp_parse b with
+  | Err _ => Ok LNothing
+  | Panic => Panic
+  | OutOfFuel => OutOfFuel
+  | Ok (h, payload) =>
+    if negb (h_ver h =? 2) then Ok LNothing else
+    if negb (h_ctrl h) then
+      (if (h_tid h =? 7) && (h_sid h =? 9) then
+         match l2tp_dispatch_ppp Repaired (mk_dcfg true false false) payload with
+         | Ok r => Ok (LData r) | Err _ => Ok LNothing | Panic => Panic | OutOfFuel => OutOfFuel
+         end
+       else Ok LNothing)
+    else
+    match parse_avps payload with
+    | Err _ => Ok LNothing
+    | Panic => Panic
+    | OutOfFuel => OutOfFuel
+    | Ok avps =>
+      mt <- decode_msg_type avps;;
+      if negb (mt =? 1) then Ok LNothing else
+      match find_first 0 7 avps with
+      | None => Ok LNothing
+      | Some ha =>
+        if negb (if list_eq_dec N.eq_dec (a_value ha) auth then true else false) then Ok (LSccrq (a_value ha) None) else
+        (* dispatchSCCRQ: duplicate detection reads the assigned id under the same guard, then HandleSCCRQ *)
+        _dup <- (match find_first 0 9 avps with
+                 | Some a => if 2 <=? lenN (a_value a) then decode_u16 a else Ok 0
+                 | None => Ok 0 end);;
+        c <- sccrq_extract avps;;
+        _w <- (match c with Some _ => peer_rws avps | None => Ok 0 end);;
+        Ok (LSccrq (a_value ha) c)
+      end
+    end
+  end.
+Definition l2obs_toks (o : l2obs) : list tok :=
+  match o with
+  | LNothing => [TN 0]
+  | LData r => match r with RNone | RLcpFsm _ _ _ | RIpcpFsm _ _ _ | RIpv6cpFsm _ _ _ => [TN 0] | _ => TN 30 :: route_toks r end
+  | LSccrq h c => [TN 20; TB h; match c with Some t => TN (t + 1) | None => TN 0 end]
+  end.
+
+(* ------------------------------------------------------------------ *)
 (* Admissible outcomes.  The property lets the code reject or ignore malformed input; where an implementation may
    legitimately be stricter than /repo HEAD the model marks exactly those inputs "may ignore" and nothing wider:
    a PPP-IPv6 (0x0057) frame whose Information field is not an IPv6 datagram (shorter than the 40-byte fixed header, or
@@ -1253,6 +1340,7 @@ Definition run (v : variant) (entry : N) (na : list N) (ba : list bytes) : resul
   if entry =? 70 then Ok (pool_burst (arg 0 na) (arg 1 na)) else
   if entry =? 72 then Ok (rad_history b (skipn 1 ba)) else
   if entry =? 73 then Ok [tbool (rad_parse_ok b); TN (if rad_parse_ok b then rad_declared b else 0)] else
+  if entry =? 75 then rmap l2obs_toks (l2tp_dispatch (barg 1 ba) b) else
   if entry =? 74 then Ok (padr_trace (arg 0 na, 0) b) else
   if entry =? 71 then Ok (pool_trace false (arg 0 na) pool0 (events_of b)) else
   if entry =? 61 then rmap (fun x => [tbool x]) (is_authentic_reply b (barg 1 ba) (barg 2 ba)) else
